@@ -155,9 +155,24 @@ def run_history(label, ops, scratch, proc_every):
             break
         # ---- a fresh handle in this process
         try:
-            cur = dict(sc.ctor(label, path).items())
+            fresh = sc.ctor(label, path)
+            if i % 3 == 0:
+                cur = dict(fresh.items())
+            elif i % 3 == 1:
+                # the keys only (no value is fetched) ...
+                ks = list(fresh.keys())
+                cur = dict((k, ref[k]) if k in ref else (k, '<unexpected key>') for k in ks)
+            else:
+                # ... and direct lookups without listing anything first
+                cur = {}
+                for k in list(ref) + [x for x in KEYS[kind_of(label)] if x not in ref][:2]:
+                    if k in fresh:
+                        cur[k] = fresh[k]
+                if len(fresh) != len(ref):
+                    cur['<len>'] = len(fresh)
             if not same_dict(cur, ref):
-                problems.append({'step': i, 'op': op, 'what': 'a fresh handle in the same process reads %s, written: %s' % (short(cur), short(ref))})
+                problems.append({'step': i, 'op': op, 'what': 'a fresh handle in the same process (%s) reads %s, written: %s' % (
+                    ('items()', 'keys()', 'direct lookups')[i % 3], short(cur), short(ref))})
                 break
         except Exception as e:
             problems.append({'step': i, 'op': op, 'what': 'a fresh handle in the same process fails: %s: %s' % (type(e).__name__, e)})
